@@ -58,6 +58,14 @@ mod operations;
 pub mod sop;
 mod static_lut;
 
+/// Observation hooks for external runtime monitors (feature `verif-hooks`)
+#[cfg(feature = "verif-hooks")]
+pub mod verif_hooks {
+    pub use crate::canonization::verif_hooks::{
+        clear_canonization_sequences, last_canonization_sequences,
+    };
+}
+
 pub use decomposition::DecompositionType;
 pub use lut::Lut;
 pub use static_lut::StaticLut;
